@@ -1,6 +1,9 @@
 package nfs
 
 import (
+	"encoding/binary"
+	"time"
+
 	"github.com/goose-lang/primitive/disk"
 
 	"github.com/mit-pdos/go-journal/buf"
@@ -10,6 +13,7 @@ import (
 	"github.com/mit-pdos/go-nfsd/dir"
 	"github.com/mit-pdos/go-nfsd/fstxn"
 	"github.com/mit-pdos/go-nfsd/inode"
+	"github.com/mit-pdos/go-nfsd/nfstypes"
 	"github.com/mit-pdos/go-nfsd/shrinker"
 	"github.com/mit-pdos/go-nfsd/super"
 	"github.com/mit-pdos/go-nfsd/util/stats"
@@ -20,6 +24,8 @@ type Nfs struct {
 	shrinkst *shrinker.ShrinkerSt
 	// support unstable writes
 	Unstable bool
+	// write verifier of this server instance (differs across restarts)
+	verf nfstypes.Writeverf3
 	// statistics
 	stats [NUM_NFS_OPS]stats.Op
 }
@@ -44,11 +50,21 @@ func MakeNfs(d disk.Disk) *Nfs {
 		fsstate:  st,
 		shrinkst: shrinker.MkShrinkerSt(st),
 		Unstable: true,
+		verf:     mkWriteVerf(),
 	}
 	if i.Kind == 0 {
 		nfs.makeRootDir()
 	}
 	return nfs
+}
+
+// mkWriteVerf makes the write verifier of a new server instance from the
+// boot time: a client that sees it change knows that unstable data may have
+// been lost.
+func mkWriteVerf() nfstypes.Writeverf3 {
+	var verf nfstypes.Writeverf3
+	binary.LittleEndian.PutUint64(verf[:], uint64(time.Now().UnixNano()))
+	return verf
 }
 
 func (nfs *Nfs) ShutdownNfs() {
